@@ -41,12 +41,14 @@ def shards(tier):
     return 16
 
 
-def vm_in_domain(v):
+def vm_in_domain(v, ret=None):
     if v is None:
         return True
     if isinstance(v, bool):
         return True
     if isinstance(v, int):
+        if ret == "uint":
+            return 0 <= v <= 0xFFFFFFFF
         return I32_MIN <= v <= I32_MAX
     if isinstance(v, float):
         return v == v and abs(v) != math.inf and abs(v) < 3e38
@@ -64,8 +66,8 @@ def compare_values(vmv, wv, ret, ref):
         if abs(a - float(wv)) <= tol:
             return None
         return "engine returned %r, VM returned %r (f32 %r, tolerance %g)" % (wv, vmv, a, tol)
-    if int(vmv) == int(wv):
-        return None
+    if (int(vmv) - int(wv)) % (1 << 32) == 0:
+        return None          # the same 32 bits (an unsigned result is read back as a signed number by the engine)
     return "engine returned %r, VM returned %r" % (wv, vmv)
 
 
@@ -123,7 +125,7 @@ def check_module(R, obs, rng, name, module, family, must_be_supported):
                         continue
                 elif vm.status != "ok":
                     continue
-                elif not vm_in_domain(vm.value):
+                elif not vm_in_domain(vm.value, f.ret):
                     R.count("dropped_vm_left_domain")
                     continue
                 elif st == "trap":
